@@ -556,6 +556,16 @@ Definition vars_persist (its : list item) : bool :=
 Definition is_main (it : item) : bool := match it with IMainLoop _ => true | _ => false end.
 Definition no_main (its : list item) : bool := forallb (fun it => negb (is_main it)) its.
 
+Fixpoint main_last (its : list item) : bool :=
+  match its with
+  | [] => true
+  | [IMainLoop _] => true
+  | it :: r => negb (is_main it) && main_last r
+  end.
+
+(* no [while True:] at all, or exactly one and nothing after it *)
+Definition one_main_last (its : list item) : bool := main_last its.
+
 (* (3) device placement *)
 Definition flat_stmt (s : stmt) : bool := match s with SIf _ _ | SFor _ _ => false | _ => true end.
 
